@@ -1,6 +1,6 @@
 //! C13 — binding of spec/SubstateLocks to radix_engine::kernel::substate_locks::SubstateLocks.
-use crate::util::*;
-use crate::Args;
+use vh::util::*;
+use vh::Args;
 use radix_engine::kernel::substate_locks::SubstateLocks;
 use radix_engine_interface::prelude::*;
 use rand::prelude::*;
@@ -150,7 +150,8 @@ fn record(args: &Args) {
                     "locked": real.locked(nodes, keys), "nlocked": real.nlocked(nodes)}));
             } else {
                 let n = if rng.gen_bool(0.6) { hot_n } else { rng.gen_range(1..=nodes) };
-                let k = rng.gen_range(1..=if rng.gen_bool(0.5) { 2 } else { keys });
+                let kmax = if rng.gen_bool(0.5) { 2 } else { keys };
+                let k = rng.gen_range(1..=kmax);
                 let ro = rng.gen_bool(0.6);
                 let ret = real.lock(n, k, ro);
                 out.emit(&json!({"a": "lock", "n": n, "k": k, "ro": ro, "ret": ret,
